@@ -24,7 +24,7 @@ META = {
     "assumptions": ["CRC clause: a recorded calc_crc24q call on exactly the returned bytes whose result the path condition forces to 0; "
                     "that this result is CRC-24Q is C08; each path's concrete witness is re-validated with an independent CRC"],
 }
-WALL_BUDGET = {"quick": 480, "thorough": 3 * 3600}
+WALL_BUDGET = {"quick": 480, "thorough": 5400}
 REPR_IDS = (4072, 1005, 1070)
 
 
@@ -39,7 +39,7 @@ def jobs(tier, seed):
     for n in range(1, 6 if tier == 'quick' else 8):
         out.append(('free', n, 1, 1))
         if tier != 'quick':
-            out.append(('free', n, 2, 2 if n <= 6 else 1))
+            out.append(('free', n, 2, 2 if n <= 5 else 1))
     if tier == 'quick':
         tm = [(0, 2, 0), (1, 2, 0), (0, 3, 1), (1, 3, 1), (2, 2, 0), (0, 4, 2), (1, 4, 0), (0, 2, 3), (2, 3, 1)]
     else:
